@@ -64,7 +64,7 @@ def generate(rng, tier, idx):
             'top': top, 'watermark': rng.choice([None, None, 0, 100000]) if top == 'Manifest' else rng.choice([None, 0, 100000, 100000]),
             'api': rng.choice(['lib', 'lib', 'cli']) if top == 'Manifest' else 'lib', 'force': rng.random() < 0.5,
             'hashes': rng.choice([['SHA256'], ['MD5', 'SHA1'], ['BLAKE2B', 'SHA512']]),
-            'fault': rng.choice([None] * 6 + ['exit1', 'exit2', 'kill', 'term', 'nooutput', 'missing', 'partial2', 'partial2'])}
+            'fault': rng.choice([None] * 6 + ['exit1', 'exit2', 'kill', 'term', 'nooutput', 'missing', 'partial2', 'partial2', 'signonce-exit2', 'signonce-exit1'])}
     if sc['normalise_first']:
         sc['force'] = True
         sc['round2'] = None
